@@ -490,6 +490,12 @@ def check(pid, tier, seed):
     open_classes = {k for k, f in findings.items() if f["status"] == "open"}
 
     nrep = [0]
+    # replays of earlier runs of this property are stale once a new run starts
+    _rd = os.path.join(ROOT, "replays", pid) if os.path.realpath(REPO) == "/repo" else os.path.join(CACHE, "alt-replays", pid)
+    if os.path.isdir(_rd):
+        for _f in os.listdir(_rd):
+            if _f.endswith('.json'):
+                os.remove(os.path.join(_rd, _f))
 
     def report(summary, payload, found_input):
         nrep[0] += 1
